@@ -5,7 +5,7 @@
    irfft2(rfft2 . * rfft2 .) computes) commutes with whole-pixel translations and with transposition. *)
 From Coq Require Import Reals.
 From Coquelicot Require Import Coquelicot.
-From PS Require Import Base.RBase Base.Dft Base.Dft2 Gen.Formulas Proofs.SymmetryProofs Proofs.ConvSymmetry.
+From PS Require Import Base.RBase Base.Dft Base.Dft2 Gen.Formulas Proofs.SymmetryProofs Proofs.ConvSymmetry Proofs.ConvChain.
 Open Scope R_scope.
 
 (* ---- theta + pi ---- *)
@@ -70,6 +70,12 @@ Theorem C09_convolution_commutes_with_transpose : forall N a b r c,
   circ_conv2 N (transpose2 a) (transpose2 b) r c = transpose2 (circ_conv2 N a b) r c.
 Proof. exact circ_conv2_transpose. Qed.
 
+(* mirroring the scene (X -> N-1-X) and the PSF stamp (about its own centre column) mirrors the PSF-convolved image; the
+   convolution is taken in the centred form that C03 proves conv_fft computes for odd stamps (2 c0 + 1 <= N) *)
+Theorem C09_convolution_commutes_with_mirror : forall N c0 a p r c, (0 < N)%nat -> (2 * c0 + 1 <= N)%nat -> (c < N)%nat ->
+  conv_centred N c0 (mirror_x N a) (mirror_stamp N c0 p) r c = mirror_x N (conv_centred N c0 a p) r c.
+Proof. exact conv_centred_mirror. Qed.
+
 Print Assumptions C09_theta_pi.
 Print Assumptions C09_round_independent_of_theta.
 Print Assumptions C09_transpose.
@@ -79,3 +85,4 @@ Print Assumptions C09_translation_fourier.
 Print Assumptions C09_theta_mod_pi.
 Print Assumptions C09_convolution_commutes_with_translation.
 Print Assumptions C09_convolution_commutes_with_transpose.
+Print Assumptions C09_convolution_commutes_with_mirror.
